@@ -149,6 +149,14 @@ class Ctx:
         shards = list(shards)
         if not shards:
             return
+        t_phase = time.time()
+        try:
+            self._pmap(fn, shards, procs)
+        finally:
+            self.extra.setdefault("phase_s", []).append([fn.__name__, len(shards), round(time.time() - t_phase, 1)])
+
+    def _pmap(self, fn, shards, procs=None):
+        import multiprocessing as mp
         procs = min(procs or NPROC, len(shards))
         if procs <= 1:
             for s in shards:
@@ -343,7 +351,7 @@ def finish(ctx: Ctx) -> int:
         "exhaustive_subdomains": sorted(set(rec.exhaustive)),
         "explanation": ctx.explanation,
         "failure_keys": {k: rec.fail_counts[k] for k in rec.fails},
-        "budget_hit": ctx.budget_hit,
+        "budget_hit": bool(ctx.budget_hit or rec.classes.get("budget")),
         "notes": rec.notes[:40],
     }
     coverage.update(jsonable(ctx.extra))
